@@ -1094,6 +1094,8 @@ class C07(Prop):
         "is_valid_object_name is compared with the model's validName on every code point below U+0300 and a sample above, in "
         "every position, and on the length limits; names are not checked anywhere else (internal names with '$' bypass the rule)",
         "the deterministic scheduler, the simulated network and the tap layer (harness/props/pubsub_common.py)",
+        "a connection that is closed WHILE a publisher's worker thread is publishing (fan-out-drop family) is judged by the "
+        "exactly-once / in-order oracle only; in the trace-refined scenarios a disconnect happens between bursts",
     ]
 
     def _run_batch(self, ctx: Ctx, cases: list, res: Result, tag: str, refine: bool = True):
